@@ -460,6 +460,19 @@ func stateCase[S, T any](c *kit.Case, r *kit.R) {
 		a.State = want
 		save, load, back = a, bb, func() T { return bb.State }
 	}
+	// In a third of the cases the receiving component is not pristine: it already holds another
+	// (generated) state, as in a roll-back inside one process. The loaded state must still equal the saved one.
+	if c.Rng.Intn(3) == 0 {
+		var other T
+		g.fill(reflect.ValueOf(&other).Elem())
+		switch x := load.(type) {
+		case *modeling.Component[S, T, modeling.None]:
+			x.State = other
+		case *modeling.EventDrivenComponent[S, T, modeling.None]:
+			x.State = other
+		}
+		r.Count("states_loaded_into_a_used_component", 1)
+	}
 	var buf bytes.Buffer
 	if err := save.SaveCheckpoint(&buf); err != nil {
 		c.Fail(fmt.Sprintf("roundtrip/state/%s:save-error:%s", t, kit.NormalizeMsg(err.Error())), map[string]any{"error": err.Error()})
